@@ -15,10 +15,12 @@ def to_iter(M, v):
         if isinstance(inner, Slice): return Iter(iter([Ref(c) for c in inner.cells()]), 'slice::Iter')
         if isinstance(inner, HMap):
             from .coll_m import iter_slots, _owned_key
+            def item(s):
+                return Ref(Cell(_owned_key(s))) if inner.is_set else Tup([Ref(Cell(_owned_key(s))), Ref(s[2])])
             def gen():
                 for s in iter_slots(M, inner):
-                    yield Ref(Cell(_owned_key(s))) if inner.is_set else Tup([Ref(Cell(_owned_key(s))), Ref(s[2])])
-            return Iter(gen(), 'hash::Iter')
+                    yield item(s)
+            return Iter(gen(), 'hash::Iter', [(s[1], (lambda s=s: item(s))) for s in inner.slots])
         if isinstance(inner, Tup):
             return Iter(iter([Ref(v.cell, v.path + (('ix', i),)) if isinstance(v, Ref) else Ref(Cell(x)) for i, x in enumerate(inner)]), 'array::Iter')
         if isinstance(inner, Adt) and inner.name == 'Option':
@@ -89,7 +91,8 @@ def into_iter_m(M, ctx, v):
 @model(I + 'next', 'std::iter::DoubleEndedIterator::next_back_unsupported')
 def iter_next(M, ctx, r):
     it = the_iter(M, r)
-    if getattr(it, 'peek', None) is not None and it.peek:
+    it.sym_slots = None
+    if it.peek:
         return it.peek.pop(0)
     try:
         return some(next(it.gen))
@@ -98,7 +101,8 @@ def iter_next(M, ctx, r):
 
 def _pull(M, it):
     """python generator over remaining items honouring peeked ones"""
-    pk = getattr(it, 'peek', None)
+    it.sym_slots = None
+    pk = it.peek
     while pk:
         o = pk.pop(0)
         if o.variant == 1: yield o.fields[0]
@@ -249,7 +253,7 @@ def iter_peekable(M, ctx, it):
 @model('std::iter::Peekable::peek', 'std::iter::Peekable::peek_mut')
 def peekable_peek(M, ctx, r):
     it = the_iter(M, r)
-    if not getattr(it, 'peek', None):
+    if not it.peek:
         it.peek = []
         try: it.peek.append(some(next(it.gen)))
         except StopIteration: it.peek.append(NONE())
@@ -267,15 +271,36 @@ def peekable_next_if(M, ctx, r, f):
         it.peek.pop(0); return some(x)
     return NONE()
 
+def _merged(M, it, f, is_any):
+    """fork-free any/all over a map-backed iterator: evaluate the predicate on every slot and combine with liveness.
+    A predicate that panics on a slot panics on this path only if that slot is live."""
+    terms = []
+    for live, thunk in it.sym_slots:
+        if isinstance(live, bool) and not live: continue
+        try:
+            r = M.call_value(f, [thunk()])
+        except Panic:
+            if M.branch(live): raise
+            continue
+        if is_any: terms.append(M.and_all([live, r]))
+        else: terms.append(M.or_all([M.not_(live), r]))
+    it.sym_slots = None
+    it.gen = iter(())
+    return M.or_all(terms) if is_any else M.and_all(terms)
+
 @model(I + 'all')
 def iter_all(M, ctx, r, f):
-    for x in _pull(M, the_or_to(M, r)):
+    it = the_or_to(M, r)
+    if it.sym_slots is not None and not it.peek: return _merged(M, it, f, False)
+    for x in _pull(M, it):
         if not M.branch(M.call_value(f, [x])): return False
     return True
 
 @model(I + 'any')
 def iter_any(M, ctx, r, f):
-    for x in _pull(M, the_or_to(M, r)):
+    it = the_or_to(M, r)
+    if it.sym_slots is not None and not it.peek: return _merged(M, it, f, True)
+    for x in _pull(M, it):
         if M.branch(M.call_value(f, [x])): return True
     return False
 
